@@ -27,6 +27,20 @@ type WellKnownResult struct {
 	CacheExpiresAt int64
 }
 
+// wellKnownTransportKey is the context key of the transport LookupWellKnown has to
+// send its request through, see withWellKnownTransport.
+type wellKnownTransportKey struct{}
+
+// withWellKnownTransport returns a context which makes LookupWellKnown send its
+// request (and follow the redirects it is answered with) through the given transport
+// instead of http.DefaultTransport. A nil transport leaves the context as it is.
+func withWellKnownTransport(ctx context.Context, transport http.RoundTripper) context.Context {
+	if transport == nil {
+		return ctx
+	}
+	return context.WithValue(ctx, wellKnownTransportKey{}, transport)
+}
+
 // LookupWellKnown looks up a well-known record for a matrix server. If one if
 // found, it returns the server to redirect to.
 func LookupWellKnown(ctx context.Context, serverNameType spec.ServerName) (*WellKnownResult, error) {
@@ -44,6 +58,11 @@ func LookupWellKnown(ctx context.Context, serverNameType spec.ServerName) (*Well
 	}
 	// Given well-known should be quite small and fast to fetch, timeout the request after 30s.
 	client := http.Client{Timeout: time.Second * 30}
+	if transport, ok := ctx.Value(wellKnownTransportKey{}).(http.RoundTripper); ok {
+		// A federation client that restricts the networks it may connect to
+		// fetches well-known files through its own dialer.
+		client.Transport = transport
+	}
 	resp, err := client.Do(req)
 	if err != nil {
 		return nil, err
